@@ -736,7 +736,7 @@ func (w *Writer) OpenStream(ref Reference, dict Dict, filters ...Filter) (io.Wri
 
 	// Copy dict so that we don't modify the caller's dict, and inline any
 	// indirect /Filter or /DecodeParms entries.  Inlining serves two
-	// purposes: it gives appendFilter direct Name/Array values to extend
+	// purposes: it gives insertFilter direct Name/Array values to extend
 	// (otherwise a Reference would fall through its default branch and
 	// silently overwrite the caller's chain), and it lets the cheap
 	// /Crypt probe below decide on resolved data.
@@ -799,7 +799,14 @@ func (w *Writer) OpenStream(ref Reference, dict Dict, filters ...Filter) (io.Wri
 		streamBody = enc
 	}
 
-	for _, filter := range filters {
+	// The filters encode what the caller writes, so a reader has to undo
+	// them before any chain the caller's dict already names (behind a
+	// leading /Crypt entry, which must stay first).
+	base := 0
+	if startsWithCrypt, _ := filterChainStartsWithCrypt(w, streamDict["Filter"]); startsWithCrypt {
+		base = 1
+	}
+	for i, filter := range filters {
 		var err error
 		streamBody, err = filter.Encode(w.meta.Version, streamBody)
 		if err != nil {
@@ -810,7 +817,7 @@ func (w *Writer) OpenStream(ref Reference, dict Dict, filters ...Filter) (io.Wri
 		if err != nil {
 			return nil, err
 		}
-		appendFilter(streamDict, name, parms)
+		insertFilter(streamDict, base+i, name, parms)
 	}
 
 	err := w.setXRef(ref, &xRefEntry{Pos: w.w.pos, Generation: ref.Generation()})
